@@ -172,7 +172,7 @@ class ApiInterp:
         self.rig.console.feed(self.tr, frame, cuts=cuts, label=label)
         self.frames += 1
 
-    def op_ac_status(self, recs):
+    def op_ac_status(self, recs, stride=None):
         """Console pushes an AC status frame with the given records (any ids, any order)."""
         c = self.rig.console
         n_err0 = len([r for r in c.requests if r[2] == "error_req"])
@@ -195,7 +195,10 @@ class ApiInterp:
         for r in recs:
             if r.get("mode") in ("auto_heat", "auto_cool") or str(r.get("fan", "")).startswith("ia_"):
                 self.nt.add("auto-variant")
-        self._send(c.w.ac_status(recs))
+        # AT5: the console may announce longer records than the known layout (known prefix + unknown tail)
+        self._send(c.w.ac_status(recs, stride=stride, tail=b"\x80\x00\x5a\xa5") if (stride and self.gen == 5) else c.w.ac_status(recs))
+        if stride and self.gen == 5 and stride != 10:
+            self.nt.add("longer-records")
         self.rig.loop.settle()
         # error requests issued by the client and answered by the console
         answered = {}
@@ -208,7 +211,7 @@ class ApiInterp:
                 answered[payload] = answered.get(payload, 0) + 1
         return {"kind": "ac", "changed": changed, "answered": answered}
 
-    def op_zone_status(self, recs):
+    def op_zone_status(self, recs, stride=None):
         c = self.rig.console
         changed = {}
         for r in recs:
@@ -224,7 +227,12 @@ class ApiInterp:
             self.entity_frames[("zone", n)] = self.entity_frames.get(("zone", n), 0) + 1
         if len(recs) < len(self.zones):
             self.nt.add("partial-frame")
-        self._send(c.w.zone_status(recs), label="push:zone_status")
+        if stride and self.gen == 5 and recs and self.zones:
+            self._send(c.w.zone_status(recs, stride=stride), label="push:zone_status")
+            if stride != 8:
+                self.nt.add("longer-records")
+        else:
+            self._send(c.w.zone_status(recs), label="push:zone_status")
         return {"kind": "zone", "changed": changed}
 
     def op_timer_status(self, timers):
@@ -456,11 +464,17 @@ def frame_ops(inst, *, common=False):
     unknown_zone = [n for n in range(16) if n not in zone_ids][:2]
     ops = []
     ac_rec = st.sampled_from(ac_ids + unknown_ac).flatmap(lambda n: con.ac_state_strategy(gen, n, common=common))
-    ops.append(st.lists(ac_rec, min_size=1, max_size=max(2, len(ac_ids) + 1)).map(lambda r: ["ac_status", r]))
+    ac_list = st.lists(ac_rec, min_size=1, max_size=max(2, len(ac_ids) + 1))
+    ops.append(ac_list.map(lambda r: ["ac_status", r]))
+    if gen == 5:
+        ops.append(st.tuples(ac_list, st.sampled_from([8, 10, 12, 14])).map(lambda t: ["ac_status", t[0], t[1]]))
     if zone_ids or unknown_zone:
         z_rec = st.sampled_from(zone_ids + unknown_zone).flatmap(lambda n: con.zone_state_strategy(gen, n, common=common))
         if zone_ids or gen == 4:
-            ops.append(st.lists(z_rec, min_size=1, max_size=min(16, len(zone_ids) + 2)).map(lambda r: ["zone_status", r]))
+            z_list = st.lists(z_rec, min_size=1, max_size=min(16, len(zone_ids) + 2))
+            ops.append(z_list.map(lambda r: ["zone_status", r]))
+            if gen == 5 and zone_ids:
+                ops.append(st.tuples(z_list, st.sampled_from([9, 10, 12])).map(lambda t: ["zone_status", t[0], t[1]]))
     ops.append(st.dictionaries(st.sampled_from([str(n) for n in ac_ids]), con.timer_strategy, min_size=1).map(
         lambda t: ["timer_status", t]))
     sep = "|" if gen == 4 else ","
